@@ -23,7 +23,7 @@ from simkit.core import RunResult, ddmin_list, short_hash
 
 LEVEL = {"C19": "fault_enumeration"}
 TIERS = {"C19": (160, 170, 2400, 1200)}
-PROBES = {"C19": ["crash_between_train_and_test_prediction", "crash_at_fit",
+PROBES = {"C19": ["second_crash_during_resume", "crash_between_train_and_test_prediction", "crash_at_fit",
                   "resume_with_partial_unit", "resume_all_complete",
                   "overwrite_run", "rerun_same_process", "presplit_cv",
                   "clock_backwards_seen", "kill_not_exception",
@@ -117,6 +117,8 @@ def generate(prop, rng, tier):
         "data_seed": rng.randint(0, 10 ** 6), "strategies": strategies,
         "features": features, "cv": cv, "runs": runs,
         "enumerate_first": store == "hdd",
+        "second_crash_frac": rng.random() if rng.random() < 0.6 else None,
+        "second_crash_mod": rng.randrange(3),
         "clock": {"seed": rng.randint(0, 10 ** 6),
                   "jump_every": rng.choice([0, 0, 3, 7, 13]),
                   "jump_hours": rng.choice([-30, -2, 5, 400])},
@@ -928,7 +930,15 @@ def execute(prop, scen):
                 out = h.run(0, run0, k)
                 if out == "crashed":
                     rrun = _resume_opts(run0)
-                    if h.run(0, rrun, None) != "error":
+                    frac2 = scen.get("second_crash_frac")
+                    if frac2 is not None and k % 3 == scen.get("second_crash_mod", 0):
+                        # the resume itself fails part-way (a second crash), then is resumed
+                        n2 = len(h.model.expected_calls(h.model.plan(rrun["opts"], rrun.get("strategies"))))
+                        if n2 > 0:
+                            j = 1 + int(frac2 * n2) % n2
+                            if h.run(0, dict(rrun, exc=run0.get("exc", "fault")), j) == "crashed":
+                                res.probe("second_crash_during_resume")
+                    if not res.violations and h.run(0, rrun, None) != "error":
                         res.nontrivial = True
                         h.run(0, dict(rrun, restart=(k % 2 == 0)), None)
                 # (8) final store == store of an uninterrupted run
